@@ -45,7 +45,7 @@ class DivisionByZero(NotEvaluable):
 _FUNCTION_FORMS = {"sort", "flatten", "unsqueeze", "squeeze", "transpose", "gather", "masked_fill", "masked_select", "masked_scatter", "clamp", "clamp_min",
                    "clamp_max", "abs", "neg", "prod", "square", "sqrt", "eq", "ne", "lt", "le", "gt", "ge", "tril", "triu", "repeat_interleave", "unique_consecutive",
                    "t", "numel", "reshape", "expand_as", "view_as", "movedim"}
-IDENTITY_METHODS = {"float", "double", "long", "int", "to", "contiguous", "clone", "detach", "type_as", "cpu"}
+IDENTITY_METHODS = {"float", "double", "long", "int", "to", "clone", "detach", "type_as", "cpu"}
 
 
 def frac_array(x) -> np.ndarray:
@@ -55,6 +55,16 @@ def frac_array(x) -> np.ndarray:
 
 def _is_arr(v):
     return isinstance(v, np.ndarray)
+
+
+def _storage(x):
+    """The array that owns the memory a view looks into."""
+    root = x
+    while isinstance(getattr(root, "base", None), np.ndarray):
+        root = root.base
+    if not root.flags["C_CONTIGUOUS"]:
+        raise NotEvaluable("storage layout")
+    return root
 
 
 def _axis(v, nd):
@@ -444,10 +454,26 @@ def _call_impl(c: ast.Call, ev, t: str):
             return np.where(a < b, a, b) if "min" in name else np.where(a > b, a, b)
         if not _is_arr(a) and not _is_arr(b) and all(isinstance(v_, (int, Fraction)) and not isinstance(v_, bool) for v_ in (a, b)):
             return (min if "min" in name else max)(a, b)  # two 0-dimensional tensors
+        if _is_arr(a) and isinstance(b, int) and not isinstance(b, bool) and name in ("torch.min", "torch.max"):
+            # `torch.min(x, dim)` is `x.min(dim)`: (values, indices)
+            return _call_impl(ast.Call(func=ast.Attribute(value=c.args[0], attr=name[6:], ctx=ast.Load()), args=[c.args[1]], keywords=[]), ev, t)
         raise NotEvaluable("min / max with a dimension")
     if name in ("torch.clamp_min", "torch.clamp_max") and len(c.args) == 2:
         a, v = _as_exact(ev(c.args[0])), ev(c.args[1])
         return np.where(a < v, v, a) if name.endswith("min") else np.where(a > v, v, a)
+    if name in ("torch.tensor", "torch.as_tensor") and len(c.args) == 1:
+        v = ev(c.args[0])
+        if _is_arr(v):
+            return v
+        if isinstance(v, (tuple, list)):
+            return frac_array([list(r_) if isinstance(r_, tuple) else r_ for r_ in v])
+        if isinstance(v, bool):
+            return np.array(v)
+        if isinstance(v, (int, Fraction)):
+            a_ = np.empty((), dtype=object)
+            a_[()] = Fraction(v)
+            return a_
+        raise NotEvaluable("torch.tensor of a non-number")
     if name == "torch.relu" and len(c.args) == 1:
         a = _as_exact(ev(c.args[0]))
         return np.where(a < 0, Fraction(0), a)
@@ -578,6 +604,28 @@ def _call_impl(c: ast.Call, ev, t: str):
                 vals_.append(v_)
                 cnts_.append(1)
         return (frac_array(vals_), frac_array(cnts_)) if rc else frac_array(vals_)
+    if m == "storage_offset" and not c.args:
+        root = _storage(x)
+        return (x.__array_interface__["data"][0] - root.__array_interface__["data"][0]) // max(root.itemsize, 1)
+    if m == "contiguous" and not c.args:
+        return x if x.flags["C_CONTIGUOUS"] else np.ascontiguousarray(x)  # (a tensor of its own only when the layout is not contiguous already)
+    if m == "as_strided" and len(c.args) in (2, 3) and not c.keywords:
+        # element (i, j, ..) of the view is storage[offset + i * s0 + j * s1 + ..] of the receiver's STORAGE (what a transposed or sliced
+        # receiver shares with its base), as in the tensor library
+        size, stride = ev(c.args[0]), ev(c.args[1])
+        off = _int(ev(c.args[2])) if len(c.args) == 3 else 0
+        root = _storage(x)
+        if not isinstance(size, tuple) or not isinstance(stride, tuple) or len(size) != len(stride) or root.dtype != object:
+            raise NotEvaluable("as_strided arguments")
+        size, stride = tuple(_int(v_) for v_ in size), tuple(_int(v_) for v_ in stride)
+        if any(v_ < 0 for v_ in size + stride) or off < 0:
+            raise NotEvaluable("as_strided arguments")
+        last = off + sum((n_ - 1) * s_ for n_, s_ in zip(size, stride)) if all(n_ > 0 for n_ in size) else off
+        if all(n_ > 0 for n_ in size) and last >= root.size:
+            raise IndexError("strided view reads outside the storage")
+        if not all(n_ > 0 for n_ in size):
+            return np.empty(size, dtype=object)
+        return np.array(np.ndarray(shape=size, dtype=object, buffer=root, offset=off * root.itemsize, strides=tuple(s_ * root.itemsize for s_ in stride)), copy=True)
     if m == "sort":
         dim, desc = _kw(c, ev, ["dim", "descending"], [-1, False])
         a_ = _axis(_int(dim), x.ndim)
